@@ -36,6 +36,14 @@ package rules
 // only on done" is now decided on run's return paths (last select case taken = done case), so a
 // loop function that returns to have its watcher re-created and is entered again is not an end.
 //
+// Third robustness set (r9..r12 of C19 and C18, all silent): tagless switch in the watch arm,
+// labelled break/continue with the loop as the last statement, ticker.C hoisted into a local, the
+// prefix flag of pull replaced by two pull functions chosen by the caller (alternative pulls into
+// the same variables are one pull; "prefix read iff flag" is then decided at the call sites with
+// run's own flag), an unexported interface in front of the cluster (calls resolved to the single
+// implementing type), result structs ({snapshot, error} from pull is followed; the watcher pair
+// is not looked at), the done channel found in structs nested in the syncer.
+//
 // Files: c19.go (helpers, R-C19-3), c19_units.go (run, units, R-C19-1), c19_timer.go (periodic source of R-C19-3), c19_reads.go (R-C19-2), c19_eq.go (R-C19-4),
 // c19_adapters.go (R-C19-5).
 //
@@ -139,9 +147,10 @@ type c19run struct {
 }
 
 type c19pullSite struct {
-	u    *c19unit
-	call *ast.CallExpr
-	f    *flow.Func // the function the pull sits in (the unit or one of its helpers)
+	u      *c19unit
+	call   *ast.CallExpr
+	f      *flow.Func    // the function the pull sits in (the unit or one of its helpers)
+	states []*flow.State // the states in which the pull call is reached in the unit's analysis
 }
 
 func c19(c *core.Ctx) string {
@@ -370,6 +379,46 @@ const (
 	c19evLastDone = "ev:lastdone" // the select case taken last in the loop is the done case
 )
 
+// doneFields: the channel fields of the type run is a method of — directly, or in a struct
+// (embedded or named, by value or pointer, same package) nested in it up to three levels: the
+// channels Close() may close.
+func (r *c19run) doneFields() []*types.Var {
+	var out []*types.Var
+	fd, ok := r.f.Node.(*ast.FuncDecl)
+	if !ok || fd.Recv == nil || len(fd.Recv.List) != 1 {
+		return nil
+	}
+	t := r.f.Info.TypeOf(fd.Recv.List[0].Type)
+	seen := map[*types.Struct]bool{}
+	var walk func(t types.Type, depth int)
+	walk = func(t types.Type, depth int) {
+		if t == nil || depth > 3 {
+			return
+		}
+		if p, ok := t.Underlying().(*types.Pointer); ok {
+			t = p.Elem()
+		}
+		if n, ok := t.(*types.Named); ok && depth > 0 && (n.Obj().Pkg() == nil || n.Obj().Pkg() != r.f.Pkg.Types) {
+			return
+		}
+		st, ok := t.Underlying().(*types.Struct)
+		if !ok || seen[st] {
+			return
+		}
+		seen[st] = true
+		for i := 0; i < st.NumFields(); i++ {
+			ft := st.Field(i).Type()
+			if _, ok := ft.Underlying().(*types.Chan); ok {
+				out = append(out, st.Field(i))
+				continue
+			}
+			walk(ft, depth+1)
+		}
+	}
+	walk(t, 0)
+	return out
+}
+
 // c19resolveLocal: an identifier naming a local that is assigned exactly once in f stands for the
 // expression it was assigned (`done := s.done` hoisted out of a loop).
 func c19resolveLocal(f *flow.Func, e ast.Expr) ast.Expr {
@@ -478,16 +527,7 @@ func c19Skeleton(c *core.Ctx, r *c19run) {
 		return
 	}
 	// clauses
-	var chanFields []*types.Var
-	if n := namedType(c, c19pkg, "syncer"); n != nil {
-		if st, ok := n.Underlying().(*types.Struct); ok {
-			for i := 0; i < st.NumFields(); i++ {
-				if _, ok := st.Field(i).Type().Underlying().(*types.Chan); ok {
-					chanFields = append(chanFields, st.Field(i))
-				}
-			}
-		}
-	}
+	chanFields := r.doneFields()
 	var tick, done []*ast.CommClause
 	c19inspect(loop.Body, func(n ast.Node) bool {
 		cc, ok := n.(*ast.CommClause)
